@@ -67,12 +67,23 @@ pub fn build(tag: &str, members: &[Member], build_examples: bool) -> Result<(Pat
     let target = target_dir(tag);
     let mut args = vec![if build_examples { "build" } else { "check" }, "--offline", "--workspace", "--lib", "--keep-going", "--message-format=json"];
     if build_examples { args.push("--examples"); }
-    let out = Command::new("cargo").args(&args).current_dir(&ws)
+    let mut res: BTreeMap<String, MemberResult> = members.iter().map(|m| (m.pkg.clone(), MemberResult::default())).collect();
+    let mut saw_any = false;
+    let mut out = Command::new("cargo").args(&args).current_dir(&ws)
         .env("CARGO_TARGET_DIR", &target).env("CARGO_NET_OFFLINE", "true").env("RUSTFLAGS", "-Awarnings")
         .stdin(Stdio::null()).output().map_err(|e| format!("cargo: {e}"))?;
-    let mut res: BTreeMap<String, MemberResult> = members.iter().map(|m| (m.pkg.clone(), MemberResult::default())).collect();
-    let stdout = String::from_utf8_lossy(&out.stdout);
-    let mut saw_any = false;
+    // a second pass when cargo left a target unattempted without reporting an error for it (an interrupted or
+    // partially scheduled build must not be mistaken for a property of the generated code)
+    for pass in 0..2 {
+    if pass == 1 {
+        let incomplete = build_examples && members.iter().any(|m| { let r = &res[&m.pkg]; r.lib_errors.is_empty() && example_stems(&m.tree).iter().chain(m.extra_examples.iter().map(|e| &e.0)).any(|e| !r.built_examples.contains(e) && !r.example_errors.contains_key(e)) });
+        if !incomplete { break; }
+        out = Command::new("cargo").args(&args).current_dir(&ws)
+            .env("CARGO_TARGET_DIR", &target).env("CARGO_NET_OFFLINE", "true").env("RUSTFLAGS", "-Awarnings")
+            .stdin(Stdio::null()).output().map_err(|e| format!("cargo: {e}"))?;
+        for r in res.values_mut() { *r = MemberResult::default(); }
+    }
+    let stdout = String::from_utf8_lossy(&out.stdout).to_string();
     for line in stdout.lines() {
         let Ok(v) = serde_json::from_str::<Value>(line) else { continue };
         saw_any = true;
@@ -90,6 +101,7 @@ pub fn build(tag: &str, members: &[Member], build_examples: bool) -> Result<(Pat
         if reason == "compiler-artifact" && kind == "example" && v["executable"].is_string() {
             r.built_examples.push(tname.strip_prefix(&format!("{pkg}_")).unwrap_or(&tname).to_string());
         }
+    }
     }
     if !saw_any && !out.status.success() {
         return Err(format!("cargo produced no messages: {}", String::from_utf8_lossy(&out.stderr).chars().take(2000).collect::<String>()));
